@@ -749,15 +749,16 @@ impl Service {
                 // The distances we send are sanitized an ordered.
                 // We never send an ENR request in combination of other requests.
                 if distances_requested.len() == 1 && distances_requested[0] == 0 {
-                    // we requested an ENR update
-                    if nodes.len() > 1 {
+                    // we requested an ENR update: the only valid answer is the peer's own record
+                    let before_len = nodes.len();
+                    nodes.retain(|enr| peer_key.log2_distance(&enr.node_id().into()).is_none());
+                    if before_len > 1 || nodes.len() < before_len {
                         warn!(
                             %node_address,
-                            "Peer returned more than one ENR for itself. Blacklisting",
+                            "Peer returned more than one ENR for itself or a foreign ENR. Blacklisting",
                         );
                         let ban_timeout = self.config.ban_duration.map(|v| Instant::now() + v);
                         PERMIT_BAN_LIST.write().ban(node_address, ban_timeout);
-                        nodes.retain(|enr| peer_key.log2_distance(&enr.node_id().into()).is_none());
                     }
                 } else {
                     let before_len = nodes.len();
